@@ -97,6 +97,11 @@ def gen(rng, tier):
                 cases.append(c)
                 if valid(c + " c"):
                     cases.append(c + " c")
+    # revoked while accept() has been failing (EMFILE) for e retry rounds: the stop must not wait for a pause that
+    # grew with the number of failures
+    cases.append("acc 2 c F7")
+    if tier == "thorough":
+        cases += ["acc 1 F1", "acc 1 F3", "acc 2 F4", "acc 3 c c c c F9 c", "acc 2 F12", "acc 2 F16"]
     # full server: each phase x 1..n connections (uniform), all slots idle, mixed phases
     for n in (1, 2, 3):
         cases.append("srv %d r" % n)
